@@ -113,6 +113,9 @@ func checkC09(ctx *Ctx) {
 	for k := 0; k < 8; k++ {
 		mixedMissing(ctx)
 	}
+	for k := 0; k < 6; k++ {
+		surplusFails(ctx)
+	}
 	// tasks that cannot be formed
 	unformable := []struct {
 		name string
@@ -153,6 +156,29 @@ func mixedMissing(ctx *Ctx) {
 		if _, ok := readFile(rr.Dir, p); ok {
 			ctx.Res.Violate(Violation{What: fmt.Sprintf("%s exists although the task that declares m.txt.b.txt did not produce it: an output of the failed task was finalized (or a dependant ran)", p), Class: "c09.failed-output-final", Witness: "mixed-missing"})
 		}
+	}
+}
+
+// a join whose failing branch delivers one item more than the other: the process still waits for that item (one
+// more round on the open ports), so the failure of the task that produces it stops the workflow (repeated: which
+// in-port is visited first is Go's map order)
+func surplusFails(ctx *Ctx) {
+	d := &Desc{Name: "c09surplus", Max: 4, Nodes: []Node{{Name: "sa", Kind: "filesource", Paths: []string{"a0.txt", "a1.txt"}},
+		{Name: "sb", Kind: "filesource", Paths: []string{"b0.txt", "b1.txt", "b2.txt"}},
+		{Name: "pa", Kind: "proc", Cmd: "( cat {i:in} > {o:out} )", Outs: map[string]string{"out": "{i:in}.pa"}},
+		{Name: "pb", Kind: "proc", Cmd: "( case {i:in|basename} in b2*) sleep 0.5 ; exit 3 ;; esac ; cat {i:in} > {o:out} )", Outs: map[string]string{"out": "{i:in}.pb"}},
+		{Name: "join", Kind: "proc", Cmd: "( cat {i:x} {i:y} > {o:out} )", Outs: map[string]string{"out": "{i:x|basename}.{i:y|basename}.j"}}},
+		Edges: []Edge{{From: "sa.out", To: "pa.in"}, {From: "sb.out", To: "pb.in"}, {From: "pa.out", To: "join.x"}, {From: "pb.out", To: "join.y"}}}
+	pre := map[string]string{}
+	for _, p := range []string{"a0.txt", "a1.txt", "b0.txt", "b1.txt", "b2.txt"} {
+		pre[p] = p + "\n"
+	}
+	rr := RunWorkflow(d, RunOpts{Pre: pre, Timeout: 15e9})
+	defer os.RemoveAll(rr.Dir)
+	ctx.Res.Eval("failing surplus task of a join", true, "surplus-fails")
+	ctx.Res.Count("join-surplus-failure")
+	if rr.Exit == 0 || rr.Returned {
+		ctx.Res.Violate(Violation{What: fmt.Sprintf("the task producing the surplus item of a join failed (exit 3) but the workflow ended with exit %d, returned=%v", rr.Exit, rr.Returned), Class: "c09.silent", Witness: "surplus-fails"})
 	}
 }
 
